@@ -488,8 +488,43 @@ def validate_canon(sorted_keys, rep, depth):
     return n
 
 
+def concurrent_pairs(rep):
+    """Two calls for DIFFERENT groups in flight at the same time (zigpy adds endpoints to groups from independent tasks): after both
+    have ended the mirror and the index partition must hold, and each accepted subscribe must own an index of its own."""
+    n = 0
+    g0, g1, g2 = G[0], G[1], G[2]
+    for fam in ("ember", "sl"):
+        for table in ([(0, 0), (0, 0)], [(g0, 1), (0, 0), (0, 0)], [(g0, 1), (0, 0)], [(0, 0), (0, 0), (0, 0)]):
+            for pair in ((("subscribe", g1), ("subscribe", g2)), (("subscribe", g1), ("unsubscribe", g0)), (("unsubscribe", g0), ("subscribe", g2))):
+                if any(op == "unsubscribe" for op, _ in pair) and not any(gid == g0 for gid, _ in table):
+                    continue
+                for ans in ("ok", "reject"):
+                    n += 1
+                    w = World(tuple(table), fam)
+                    w.apply(0)   # startup with no member groups
+                    if w.viol:
+                        continue
+                    w.ezsp.answer = ans
+                    w.ezsp.writes = []
+
+                    async def both():
+                        return await asyncio.gather(*[getattr(w.m, op)(g) for op, g in pair], return_exceptions=True)
+
+                    kind, val = run(both())
+                    w._normalise()
+                    msgs = list(w.state_invariant())
+                    if kind != "ret":
+                        msgs.append(f"the two calls ended with {kind} {val}")
+                    if msgs:
+                        label = f"concurrent {pair[0][0]}({pair[0][1]:#06x}) || {pair[1][0]}({pair[1][1]:#06x}), NCP answers {ans}, table {table}"
+                        rep.add_violation(vkey(label + ": " + msgs[0]), f"{label}: {msgs[0]} (writes {[x[:3] for x in w.ezsp.writes]})",
+                                          {"world": "c15-concurrent", "family": fam, "table": [list(x) for x in table], "pair": [list(x) for x in pair], "answer": ans})
+    return n
+
+
 def main(tier: str) -> int:
     rep = report.Report("C15", tier, "model_checking")
+    n_conc = concurrent_pairs(rep)
     agg = explore_all(tier, rep)
     n_stateless = validate_canon(agg["sorted_keys"], rep, 2 if tier == "quick" else 3)
     ep_states = ep_transitions = 0
@@ -510,6 +545,7 @@ def main(tier: str) -> int:
         "closed": True,
         "exhaustive": True,
         "initial_states": n_init,
+        "concurrent_pair_cases": n_conc,
         "endpoint_states": ep_states,
         "endpoint_transitions": ep_transitions,
         "alphabet_size": len(EVENTS),
@@ -531,6 +567,12 @@ def main(tier: str) -> int:
 
 
 def replay(data) -> int:
+    if data.get("world") == "c15-concurrent":
+        rep = report.Report("C15", "quick", "model_checking")
+        concurrent_pairs(rep)
+        for v in rep.violations:
+            print(v.key, v.message)
+        return 1 if rep.violations else 0
     if data.get("world") == "c15-endpoint":
         w = EpWorld(data["size"])
         bad = 0
